@@ -37,7 +37,10 @@ RULE = ('(a) grammar-directed metadata texts: 1-14 key=value lines; keys from th
         '{3A,3B1,3B2,NP2.1(21/1030),NP2.4(24/2013),NPultra,nidq,unknown} x AP/LF x NON-UNIFORM per-channel (AP,LF) gain pairs x IMRO sizes '
         '(2..384) x saved-channel counts (full, prefix, one more than the table, sync 0/1) x range / max-int / rates, with a field-mutation '
         'stream (dropped key, wrong type, zero max-int).  (c) float()/repr() of the model against CPython on random digit strings / doubles.  '
-        '(d) the 21 shipped fixtures through the real Reader constructor.  A case is non-trivial when it parses and has >= 1 numeric value '
+        '(d) the 21 shipped fixtures through the real Reader constructor.  (e) for every 6th acquisition case, every 16th grammar case and '
+        'every fixture a 43-call sequence on ONE parsed dict and ONE Reader object (every helper / property / write_meta_data three times, '
+        'geometry_from_meta, a second Reader, re-reads in between): every result must equal the result on a freshly read dict, and the derive '
+        'line obtained at the END of the sequence is compared with the model of the file.  A case is non-trivial when it parses and has >= 1 numeric value '
         '(a) or yields a gain vector (b); distinct by sha1 of the text + op.')
 ASSUMPTIONS = [
     'the metadata file is decoded as UTF-8 (Python text mode with the sandbox locale); the model works on the decoded str',
@@ -50,6 +53,10 @@ ASSUMPTIONS = [
     'int(str) is modelled for ASCII text only, a list-valued niMNGain/niMAGain (NumPy broadcasting) is outside the model (Err.model; never generated)',
     'Reader.fs/nc/nsync/ns/type/version/sample2volts/range_volts are observed on a Reader whose meta and conversion table were set from '
     'read_meta_data/_conversion_sample2v_from_meta without running geometry_from_meta (C08), and through the real constructor on the fixtures',
+    'statefulness: only RESULTS are demanded (repeated / interleaved calls on the same dict or Reader give the values of the original file); that '
+    'an argument dict stays bit-identical is recorded as the tag arg-modified(info) only, and aliasing of returned arrays is not tested '
+    '(Reader.sample2volts IS the stored conversion array, by design); a failing input found by the search is re-evaluated and shrunk in a '
+    'new interpreter so that the replay is a call sequence from a clean state',
     'derived-quantity oracle tolerances: float32 gains 4e-7 relative (three roundings), float64 1e-14; ns within 0.5 + 1e-9*|ns| of the exact rational product',
 ]
 TRUSTED = [
@@ -184,6 +191,7 @@ def impl_roundtrip(sc, text):
         d = real_read(sc, text)
     except Exception as e:  # noqa
         return 'err-parse ' + err_name(e)
+    before = d_enc(d)          # the parsed values, encoded before write_meta_data sees the dict
     try:
         w = real_write(sc, d)
     except Exception as e:  # noqa
@@ -192,14 +200,14 @@ def impl_roundtrip(sc, text):
         d2 = real_read(sc, w)
     except Exception as e:  # noqa
         return 'err-reparse ' + err_name(e) + ' text=' + s_enc(w)
-    return f'ok text={s_enc(w)} dict={d_enc(d2)} same={1 if d_enc(d2) == d_enc(d) else 0}'
+    return f'ok text={s_enc(w)} dict={d_enc(d2)} same={1 if d_enc(d2) == before else 0}'
 
 
 def shim_reader(md):
     """A Reader carrying `md` exactly as the constructor would (meta + conversion table), without the geometry (C08)."""
     import spikeglx
     r = spikeglx.Reader.__new__(spikeglx.Reader)
-    r.meta = spikeglx.Bunch(md) if hasattr(spikeglx, 'Bunch') else md
+    r.meta = md if isinstance(md, spikeglx.Bunch) else spikeglx.Bunch(md)   # a Bunch is kept as the very object (purity checks)
     try:
         conv = spikeglx._conversion_sample2v_from_meta(r.meta)
         cerr = None
@@ -256,6 +264,163 @@ def impl_derive_constructor(sc, text):
     finally:
         lg.setLevel(lvl)
         os.unlink(p)
+
+
+# ---------------------------------------------------------------------------------------------
+# purity: the model is a pure function of the file content, so the implementation must be one too
+# ---------------------------------------------------------------------------------------------
+_JUNK = 12345.678
+_HELPERS = ('_get_neuropixel_version_from_meta', '_get_neuropixel_major_version_from_meta', '_get_serial_number_from_meta',
+            '_get_type_from_meta', '_get_nchannels_from_meta', '_get_sync_trace_indices_from_meta',
+            '_get_analog_sync_trace_indices_from_meta', '_get_fs_from_meta', '_get_max_int_from_meta', '_conversion_sample2v_from_meta')
+
+
+def _show_any(x):
+    if isinstance(x, dict):
+        return '{' + '|'.join(str(k) + '~' + _show_any(v) for k, v in x.items()) + '}'
+    if isinstance(x, np.ndarray):
+        return g_enc(x)
+    if isinstance(x, list):
+        return '[' + ','.join(_show_any(v) for v in x) + ']'
+    if isinstance(x, (float, np.floating)):
+        return type(x).__name__ + ':' + str(f_bits(x))
+    return type(x).__name__ + ':' + repr(x)
+
+
+def _dict_diff(md, md0):
+    if list(md) != list(md0):
+        return f'keys {[k for k in md if k not in md0][:3]} added / {[k for k in md0 if k not in md][:3]} removed (or reordered)'
+    for k in md0:
+        if v_enc(md[k]) != v_enc(md0[k]):
+            return f'md[{k!r}] was {md0[k]!r}, now {md[k]!r}'
+    return 'changed'
+
+
+def _fp(md):
+    """cheap type-sensitive fingerprint of a metadata dict"""
+    return repr([(k, type(v).__name__, v) for k, v in md.items()])
+
+
+def purity_run(sc, text):
+    """One concrete call sequence on the real code, all on the SAME parsed dict / the SAME Reader object.  Returns None when the
+    text does not parse, else {'final': derive line obtained at the END of the sequence, 'problems': [...], 'calls': [...],
+    'arg_modified': first call after which the dict was not bit-identical (informational only, never a problem by itself)}.
+    A problem is a RESULT that differs from the result for the original values:
+      reference  every helper on a pristine dict of its own (a fresh read_meta_data of the same file), write of a pristine dict;
+      (b) every helper, every Reader property and write_meta_data, three times on the same dict / Reader object;
+      (d) in between: write_meta_data, geometry_from_meta and _map_channels_from_meta on that dict, a second Reader on it,
+          a re-read of the file, in-place arithmetic on private copies of the gains.
+    Whether an argument is modified or a result aliases a buffer is NOT demanded (only its consequences on results are)."""
+    import copy
+    import logging
+    import spikeglx
+    problems, calls, argmod = [], [], []
+    p = sc.put(text)
+    lg = logging.getLogger('ibllib')
+    lvl = lg.level
+    lg.setLevel(logging.CRITICAL)
+    try:
+        with warnings.catch_warnings(), np.errstate(all='ignore'):
+            warnings.simplefilter('ignore')
+            try:
+                md = spikeglx.read_meta_data(p)
+            except Exception:  # noqa
+                return None
+            calls.append('md = read_meta_data(f)')
+            snap = _fp(md)
+
+            def note(call):
+                calls.append(call)
+                if not argmod and _fp(md) != snap:
+                    argmod.append(f'call {len(calls)} `{call}`')
+
+            # references: each helper on a pristine dict of its own
+            ref = {}
+            for name in _HELPERS:
+                fresh = spikeglx.read_meta_data(p)
+                ref[name] = E(lambda: getattr(spikeglx, name)(fresh), _show_any)
+            try:
+                wref = real_write(sc, spikeglx.read_meta_data(p))
+            except Exception as e:  # noqa
+                wref = 'err ' + err_name(e)
+            rr, rconv, rcerr = shim_reader(spikeglx.read_meta_data(p))
+            dref = derived_of_reader(rr, rconv, rcerr)
+
+            def helpers(tag):
+                for name in _HELPERS:
+                    got = E(lambda: getattr(spikeglx, name)(md), _show_any)
+                    note(f'{name}(md)  [{tag}]')
+                    if got != ref[name] and (got.startswith('ok:') or ref[name].startswith('ok:')) and len(problems) < 3:
+                        problems.append(f'call {len(calls)} `{name}(md)` [{tag} round on the same dict] returned {got[:160]}; '
+                                        f'on a freshly read dict of the same file it returns {ref[name][:160]}')
+
+            def props(reader, cerr, call):
+                got = derived_of_reader(reader, reader.channel_conversion_sample2v, cerr)
+                note(call)
+                td = _first_token_diff(dref, got, values_only=True)
+                if td and len(problems) < 3:
+                    problems.append(f'call {len(calls)} `{call}`: {td} (second value: fresh dict, fresh Reader)')
+                return got
+
+            def write(tag):
+                try:
+                    w = real_write(sc, md)
+                except Exception as e:  # noqa
+                    w = 'err ' + err_name(e)
+                note(f'write_meta_data(md, g)  [{tag}]')
+                if w != wref and len(problems) < 3:
+                    problems.append(f'call {len(calls)} `write_meta_data(md, g)` [{tag}] wrote {w[:120]!r}; a freshly read dict is written as {wref[:120]!r}')
+
+            helpers('1st')
+            r, conv, cerr = shim_reader(md)
+            assert r.meta is md
+            note('reader = Reader on md (meta = md, conversion table = _conversion_sample2v_from_meta(md))')
+            if (cerr or None) != (rcerr or None) and len(problems) < 3:
+                problems.append(f'call {len(calls)}: the conversion table on the same dict gave {cerr or "a table"}, on a fresh dict {rcerr or "a table"}')
+            props(r, cerr, 'reader.version/type/nc/nsync/fs/ns/sample2volts/range_volts  [1st]')
+            write('1st')
+            helpers('2nd')
+            props(r, cerr, 'same reader: all properties  [2nd]')
+            write('2nd')
+            # (d) the library's own functions in between
+            for fn in ('geometry_from_meta', '_map_channels_from_meta'):
+                try:
+                    getattr(spikeglx, fn)(md)
+                except Exception:  # noqa
+                    pass
+                note(f'{fn}(md)')
+            try:
+                spikeglx.read_meta_data(p)
+                mdc = copy.deepcopy(md)
+                real_write(sc, mdc)
+                if conv:
+                    for a in conv.values():
+                        b = np.array(a)
+                        b *= 3
+            except Exception:  # noqa
+                pass
+            note('read_meta_data(f) again; write_meta_data(deepcopy(md), h); private copies of the gains *= 3')
+            helpers('3rd')
+            props(r, cerr, 'same reader: all properties  [3rd]')
+            r4, conv4, cerr4 = shim_reader(md)
+            note('reader2 = second Reader on the same md')
+            final = props(r4, cerr4, 'reader2: all properties')
+            write('3rd')
+            return {'final': final, 'problems': problems, 'calls': calls, 'arg_modified': argmod[0] if argmod else None}
+    finally:
+        lg.setLevel(lvl)
+        if os.path.exists(p):
+            os.unlink(p)
+
+
+def _first_token_diff(a, b, values_only=False):
+    """first differing `name=value` token; with values_only a difference between two error classes is ignored"""
+    if a == b:
+        return None
+    for x, y in zip(a.split(' '), b.split(' ')):
+        if x != y and not (values_only and '=err:' in x and '=err:' in y):
+            return f'{y[:140]} instead of {x[:140]}'
+    return None if values_only else 'different length'
 
 
 # ---------------------------------------------------------------------------------------------
@@ -577,7 +742,18 @@ def correspondence(ctx):
         impl.append(impl_s)
         meta.append((op, _desc(op, text, **kw), nontrivial, tuple(tags)))
 
+    pure = []   # (desc, tags, first problem or None)
+
     with Scratch() as sc:
+        def purity_case(text, tags):
+            """call sequence of `purity_run`; the derive line obtained at its END is compared with the model of the file"""
+            pr = purity_run(sc, text)
+            if pr is None:
+                return
+            add('derive', text, pr['final'], ' conv=ok:' in pr['final'], ('derive', 'after-call-sequence'), sequence='purity_run')
+            pure.append((_desc('purity', text), tags + (('arg-modified(info)',) if pr['arg_modified'] else ()),
+                         pr['problems'][0] if pr['problems'] else None, len(pr['calls']), pr['arg_modified']))
+
         # (c) float() and repr() of the model against CPython
         nfloat = ctx.n(1500, 20000)
         for _ in range(nfloat):
@@ -631,6 +807,8 @@ def correspondence(ctx):
             add('roundtrip', text, r, r.startswith('ok') and has_num, tags)
             if i % 4 == 0:
                 add('parse', text, impl_parse(sc, text), False, ('parse',))
+            if i % 16 == 1:
+                purity_case(text, ('purity', 'purity:grammar'))
 
         # (b) acquisition metadata: derived quantities + round trip
         for i in range(ctx.n(1500, 16000)):
@@ -642,12 +820,15 @@ def correspondence(ctx):
             if i % 3 == 0:
                 rr = impl_roundtrip(sc, text)
                 add('roundtrip', text, rr, rr.startswith('ok'), ('roundtrip', 'mode=acq', 'outcome=' + rr.split()[0]))
+            if i % 6 == 1:
+                purity_case(text, ('purity', 'purity:acq', 'purity:' + ('conv-ok' if conv_ok else 'conv-err')))
 
         # (d) shipped fixtures, also through the genuine Reader constructor
         fx = fixture_texts()
         for name, text in fx:
             add('roundtrip', text, impl_roundtrip(sc, text), True, ('roundtrip', 'fixture'), fixture=name)
             add('derive', text, impl_derive(sc, text), True, ('derive', 'fixture'), fixture=name)
+            purity_case(text, ('purity', 'purity:fixture'))
             try:
                 rc = impl_derive_constructor(sc, text)
             except Exception as e:  # noqa  (constructor stops where the shim reports the conversion error)
@@ -667,6 +848,13 @@ def correspondence(ctx):
             continue
         ctx.compare(op, desc, a, b, nontrivial=nontrivial, tags=tags)
     ctx.note(f'{n_model_skip} case(s) outside the model (Err.model) were not compared')
+    for desc, tags, problem, ncalls, am in pure:
+        ctx.compare('purity', desc, problem or 'same-results', 'same-results', nontrivial=True, tags=tags)
+    if pure:
+        am = [q[4] for q in pure if q[4]]
+        ctx.note(f'{len(pure)} call sequences of {pure[0][3]} calls each on one dict / one Reader (three rounds, interleaved library calls): '
+                 f'{sum(1 for q in pure if q[2])} with a wrong result; argument dict modified in {len(am)} (informational'
+                 + (f', first: {am[0]}' if am else '') + ')')
     _assert_constants(ctx)
 
 
@@ -726,8 +914,10 @@ def oracle_roundtrip(sc, text):
             return None    # not an integer list
         if _in_f12_class(v):
             return None    # KNOWN FINDING scientific_repr_scalar
+    import copy
+    passed, d = d, copy.deepcopy(d)      # `d`: the parsed values; `passed`: the object handed to write_meta_data
     try:
-        w = real_write(sc, d)
+        w = real_write(sc, passed)
         d2 = real_read(sc, w)
     except Exception as e:  # noqa
         return f'writing / re-reading raised {type(e).__name__}: {e}'
@@ -862,19 +1052,75 @@ def oracle_derived(sc, text):
     return None
 
 
+def oracle_purity(sc, text):
+    """Statefulness: see `purity_run`.  Independent of the model: results of repeated / interleaved calls on one dict and one Reader
+    are compared with the results on freshly read dicts of the same file."""
+    pr = purity_run(sc, text)
+    if pr and pr['problems']:
+        return pr['problems'][0]
+    return None
+
+
+def purity_calls(sc, text):
+    pr = purity_run(sc, text)
+    return pr['calls'] if pr else []
+
+
 def oracle(sc, text):
     r = oracle_roundtrip(sc, text)
     if r:
         return 'roundtrip', r
+    r = oracle_purity(sc, text)      # before `derived`: a stateful defect is reported as the call sequence that shows it
+    if r:
+        return 'purity', r
     r = oracle_derived(sc, text)
     if r:
         return 'derived', r
     return None
 
 
+def fresh_oracle(text):
+    """The oracles on `text` in a NEW interpreter (no cache / module state left by earlier cases), with shrinking.
+    Returns {'kind', 'text', 'why', 'calls'} or None."""
+    import json
+    import subprocess
+    import sys
+    d = tempfile.mkdtemp(prefix='c09_fresh_')
+    try:
+        f = os.path.join(d, 'case.txt')
+        with open(f, 'w', encoding='utf-8', newline='') as fid:
+            fid.write(text)
+        code = ('import json,sys; import props.c09 as m\n'
+                'text=open(sys.argv[1],encoding="utf-8",newline="").read()\n'
+                'print("C09FRESH"+json.dumps(m._oracle_shrunk(text)))')
+        pr = subprocess.run([sys.executable, '-c', code, f], capture_output=True, text=True, timeout=300)
+        for line in pr.stdout.splitlines():
+            if line.startswith('C09FRESH'):
+                return json.loads(line[len('C09FRESH'):])
+        return None
+    finally:
+        shutil.rmtree(d, ignore_errors=True)
+
+
+def _oracle_shrunk(text):
+    import framework
+    framework.setup_paths()
+    fns = {'roundtrip': oracle_roundtrip, 'derived': oracle_derived, 'purity': oracle_purity}
+    with Scratch() as sc:
+        r = oracle(sc, text)
+        if not r:
+            return None
+        kind, why = r
+        t2 = _shrink(sc, text, kind)
+        r2 = fns[kind](sc, t2)
+        if r2:
+            text, why = t2, r2
+        return {'kind': kind, 'text': text, 'why': why, 'calls': purity_calls(sc, text) if kind == 'purity' else []}
+
+
 def _shrink(sc, text, kind):
     """Greedy line removal while the same oracle keeps failing."""
-    fn = oracle_roundtrip if kind == 'roundtrip' else oracle_derived
+    fn = {'roundtrip': oracle_roundtrip, 'derived': oracle_derived, 'purity': oracle_purity}[kind]
     lines = text.split('\n')
     changed = True
     while changed and len(lines) > 1:
@@ -911,31 +1157,48 @@ def search(ctx, reasons):
             cands.append(gen_acq(rng)[0])
         for _, t in fixture_texts():
             cands.append(t)
-        n_fail = 0
+        fails = []
         for t in cands:
             try:
                 r = oracle(sc, t)
             except Exception as e:  # noqa
                 r = ('oracle', f'raised {type(e).__name__}: {e}')
             if r:
-                n_fail += 1
-                if best is None or len(t) < len(best[0]):
-                    best = (t, r)
-                if n_fail >= 25 and len(best[0]) < 400:
+                fails.append((t, r))
+                if len(fails) >= 25 and min(len(x[0]) for x in fails) < 400:
                     break
-        if best:
-            t, (kind, why) = best
-            if kind in ('roundtrip', 'derived'):
-                t2 = _shrink(sc, t, kind)
-                r2 = (oracle_roundtrip if kind == 'roundtrip' else oracle_derived)(sc, t2)
-                if r2:
-                    t, why = t2, r2
-            return {'input': {'check': kind, 'text': t}, 'observed': why,
-                    'expected': ('C09: parse(write(parse(file))) == parse(file) for string / scalar / integer-list values' if kind == 'roundtrip' else
-                                 'C09: version/type/nc/nsync/fs/ns/max-int and volts-per-bit = range / max-int / channel gain (1 on sync) '
-                                 'agree with an independent reading of the fields'),
-                    'how': "python: harness/props/c09.py oracle(sc, text) — write `text` to a .meta file, spikeglx.read_meta_data / "
-                           "write_meta_data / _conversion_sample2v_from_meta, compare with the fields read with fractions.Fraction"}
+        fails.sort(key=lambda x: len(x[0]))
+        expected = {
+            'roundtrip': 'C09: parse(write(parse(file))) == parse(file) for string / scalar / integer-list values',
+            'derived': 'C09: version/type/nc/nsync/fs/ns/max-int and volts-per-bit = range / max-int / channel gain (1 on sync) '
+                       'agree with an independent reading of the fields',
+            'purity': 'C09: the derived quantities and the written file are functions of the metadata: repeated and interleaved calls on '
+                      'the same dict / the same Reader give the results obtained on a freshly read dict',
+            'oracle': 'C09 oracle runs'}
+        how = {
+            'purity': 'python (fresh interpreter): harness/props/c09.py purity_run(sc, text) — the numbered call sequence in `calls` on the file `text`',
+        }
+        default_how = ("python: harness/props/c09.py oracle(sc, text) — write `text` to a .meta file, spikeglx.read_meta_data / "
+                       "write_meta_data / _conversion_sample2v_from_meta, compare with the fields read with fractions.Fraction")
+        # a failure seen here may be the effect of state left by the thousands of earlier calls in this process: the replay must be a
+        # call sequence from a clean interpreter, so the smallest candidates are re-evaluated (and shrunk) in a new process
+        for t, r in fails[:6]:
+            try:
+                fr = fresh_oracle(t)
+            except Exception as e:  # noqa
+                ctx.note(f'fresh-process oracle failed: {type(e).__name__}: {e}')
+                fr = None
+            if fr:
+                out = {'input': {'check': fr['kind'], 'text': fr['text']}, 'observed': fr['why'],
+                       'expected': expected.get(fr['kind'], ''), 'how': how.get(fr['kind'], default_how)}
+                if fr['calls']:
+                    out['calls'] = fr['calls']
+                return out
+        if fails:
+            t, (kind, why) = fails[0]
+            ctx.note('the failing input fails only after earlier calls in the same process (state carried across files)')
+            return {'input': {'check': kind, 'text': t}, 'observed': why + '  [observed after the earlier cases of this run; a new process does not fail on it]',
+                    'expected': expected.get(kind, ''), 'how': default_how}
     return None
 
 
